@@ -960,6 +960,7 @@ def exec_hostile_server(base, case, chooser=None):
                 except asyncio.CancelledError:
                     return 0, None
             st['flagged'] = True         # from here on a verified blob is the honest peer's doing
+            st['server'] = st['server'] or 'nobody'    # every new connection meets an honest peer
             t3 = loop.create_task(again())
             w.pump(t3.done, on_step=on_step, t_horizon=loop.time() + 100.0)
             obs.log.append(f'retry from an honest peer: verified={target.get_is_verified()}')
@@ -981,7 +982,7 @@ def exec_hostile_server(base, case, chooser=None):
 
 def hostile_server_cases(quick):
     positions = [(1, 1), (2, 2), (2, 1)] if quick else [(1, 1), (2, 2), (2, 1), (3, 3), (3, 2), (3, 1)]
-    shapes = ['plain20'] if quick else ['plain20', 'one', 'addr']
+    shapes = ['plain20'] if quick else ['plain20', 'one', 'addr', 'fakehdr']
     names = list(hs_catalogue(sha(b'x'), b'x' * 20, sha(b'y'), b'y' * 20, 8))
     cutsets = [list(s) for s in subsets(HS_CUTS)] + ['bytes1']
     cases = []
@@ -991,8 +992,6 @@ def hostile_server_cases(quick):
                 for known in (False, True):
                     for cuts in cutsets:
                         if cuts == 'bytes1' and entry in ('json-deep', 'json-never-closes'):
-                            continue
-                        if shape != 'plain20' and cuts not in ([], ['he'], ['he-1', 'he+1'], 'bytes1'):
                             continue
                         cases.append({'n': n, 'k': k, 'entry': entry, 'known': known, 'shape': shape, 'cuts': cuts})
     # singles: a JSON document of more than 2 MiB that never closes, and a 2 MiB target blob
@@ -1346,7 +1345,7 @@ def honest_cases(quick):
         names = s2c_alphabet(make_blob(shape), limit)
         seqs = [[[shape, 0]], [['plain20', 1], [shape, 0]], [[shape, 0], ['plain20', 1], [shape, 2]]]
         for si, seq in enumerate(seqs):
-            for known in ((False, True) if si == 0 else (False,)):
+            for known in ((False, True) if (si == 0 or not quick) else (False,)):
                 s2c_all = [s for s in subsets(names)] + ['bytes1']
                 for s2c in s2c_all:
                     if not quick and si == 0 and not known:
